@@ -5,6 +5,7 @@ CONSTANTS
   MaxN = 3
   Levels = {"any", "one", "quorum", "all"}
   OOO = {TRUE, FALSE}
+  Coords = {0, 1, 2, 3}
   Dev = {}
 INVARIANTS TypeOK C03_SuccessOnlyIfMet C03_SuccessIfMetInTime C03_HHExactlyOnce C03_Classification
 CHECK_DEADLOCK FALSE
